@@ -52,7 +52,7 @@ NEG = {
 
 
 # ---------------------------------------------------------------- harness dataset (no repository code besides the base)
-def make_dataset(cls, C, with_getall):
+def make_dataset(cls, C, with_getall, dim1=False):
     from kappadata.datasets.kd_dataset import KDDataset
 
     class IdDataset(KDDataset):
@@ -73,7 +73,8 @@ def make_dataset(cls, C, with_getall):
             return self._cls[int(idx)]
 
         def getshape_class(self):
-            return (int(C),)
+            # binary datasets may announce the class shape (1,) (kappadata.utils.class_counts treats that as 2 classes)
+            return (1,) if dim1 else (int(C),)
 
         @property
         def class_names(self):
@@ -170,7 +171,7 @@ def observe(case, a, deadline):
     """one construction under the global seed a['g']; returns (kind of event, selection, note)"""
     import numpy as np
     import torch
-    ds = make_dataset(case["cls"], case["C"], case["getall"])
+    ds = make_dataset(case["cls"], case["C"], case["getall"], dim1=case.get("dim1", False))
     pos_of = {1000 + 7 * j: j for j in range(case["n"])}
     np.random.seed(a["g"])
     torch.default_generator.manual_seed(a["g"])  # CPU generator only: torch.manual_seed queues lazy device calls
@@ -531,7 +532,13 @@ def make_case(cid, kind, C, cls, args, rel, r, gseeds):
     for a in evs:
         a.setdefault("via", "ids")
         a.setdefault("ints", False)
-    return dict(id=cid, kind=kind, rel=rel, n=len(cls), C=C, cls=list(cls), getall=bool(r.random() < 0.5), ev=evs)
+    # every third binary layout is presented as a dataset that announces the class shape (1,)
+    dim1 = bool(C == 2 and kind != "filter" and r.random() < 0.34)
+    if C == 1:
+        # a dataset announcing the class shape (1,) IS a binary dataset for the library (class 1 may be absent)
+        C, dim1 = 2, True
+    return dict(id=cid, kind=kind, rel=rel, n=len(cls), C=C, cls=list(cls), getall=bool(r.random() < 0.5), dim1=dim1,
+                ev=evs)
 
 
 def build_cases(tier, r):
@@ -612,7 +619,7 @@ def arg_str(kind, a):
 def ds_str(case):
     cls = case["cls"]
     c = str(cls).replace(" ", "") if len(cls) <= 12 else "#" + hashlib.sha1(json.dumps(cls).encode()).hexdigest()[:8]
-    return f"n={case['n']},C={case['C']},cls={c}"
+    return f"n={case['n']},C={case['C']}{',dim1' if case.get('dim1') else ''},cls={c}"
 
 
 def case_key(case, pos=None):
